@@ -2,7 +2,7 @@
 """Regenerates /verif/MANIFEST.json from the table below (run from /verif)."""
 import json, subprocess
 
-HOOK_COMMITS = ["3f52741", "cca9102"]
+HOOK_COMMITS = ["3f52741", "cca9102"]  # in /repo: I/O tap + index probe; worker barrier/liveness probe
 
 CHECKS = {
  "C01": dict(cat="exploration", tech="runtime monitoring: model-differential oracle (sequential reference model) over generated + enumerated histories",
@@ -11,12 +11,51 @@ CHECKS = {
  "C02": dict(cat="exploration", tech="runtime monitoring: model-differential oracle over generated + enumerated histories",
    text="after every step the version lists (read_all, read_all_with_deletion_marker, entry bytes+meta), read_with per meta, delete return counts and the duplicate policy (records physically stored) are compared with the reference model, both duplicate policies",
    note="trusted: reference model and driver; histories generated for the seed"),
+ "C03": dict(cat="fault_enumeration", tech="runtime monitoring: damage enumeration over index files + model-differential oracle at reopen, I/O tap to classify accepted vs regenerated",
+   text="for random histories the closed directory is reopened under every enumerated index damage (remove, truncate at every structure boundary +-1 / every length, zero-length, header-only, written bit clear, half-written, stale copies, all subsets of removed files): init must succeed, all answers must equal the pre-close answers, new blob ids stay above every id ever present (incl. quarantined)",
+   note="index bit flips are outside the statement; damage classes enumerated per history, histories sampled"),
  "C04": dict(cat="exploration", tech="runtime monitoring: model-differential oracle over maintenance-heavy histories, worker barrier hook",
    text="maintenance calls (close/create/restore, background variants, force update, free_excess_resources with racing dumps, offload, fsync, restart) are interleaved with data operations; each call's result is checked against its documented precondition and the full query surface is re-compared with the model after every step",
    note="trusted: reference model, driver, H2 barrier hook; abstract states visited are reported, not enumerated"),
+ "C05": dict(cat="fault_enumeration", tech="runtime monitoring: byte-exact round trips across size thresholds + enumerated on-disk corruption of data bytes",
+   text="values of every length around the 4096 and 81920 thresholds (and 0, 1, 200 KiB, 1 MiB) round-trip byte-exactly through all read paths with the index in memory / on disk / regenerated on both runtime flavours; every enumerated alteration (bit, byte, burst <= 32 bits) of stored data bytes must make the read fail or the blob be quarantined",
+   note="CRC-32C detects all bursts <= 32 bits, so no probabilistic slack; meta bytes outside the corruption half"),
+ "C06": dict(cat="fault_enumeration", tech="runtime monitoring: power-loss states built from the I/O tap (crash point x per-file cut) + real SIGKILL of a child process, recovery oracle via model and independent parser",
+   text="every sampled (thorough: every) tap event is a crash point; directory states with per-file suffix truncation beyond the last sync are installed and the real init runs on them; served records must be a per-blob prefix of what was written (or the blob preserved intact), fully synced blobs served in full, storage usable; SIGKILLed child: acknowledged records served or recovered by tools::recovery_blob, post-recovery writes survive restarts",
+   note="power-loss model: suffix truncation per file, directory operations atomic and durable; literal reading of the statement"),
+ "C07": dict(cat="exploration", tech="runtime monitoring: byte snapshots of blob files + I/O tap trace rules (+ strace in thorough)",
+   text="after every step of histories with restarts, external damage (quarantines) and injected I/O failures the bytes of all blob files are compared with the previous snapshot (prefix / moved intact), the tap shows no write below the stored end, truncate, remove, re-create, rename over an existing file or blob id reuse, and query passes perform no writes",
+   note="snapshots taken at quiescent points (worker barrier); strace view only in thorough tier"),
+ "C08": dict(cat="exploration", tech="runtime monitoring: client-boundary history + per-key max-register checker, quiescence model check, independent disk parse, timing-free deadlock monitor (+ TSan/ASan in thorough)",
+   text="8..4000 concurrent client tasks with rotation, maintenance task and injected I/O delays; every read is checked against the recorded history (never stale, never foreign, never backwards), the quiescent state equals the model, every blob parses to exactly the acknowledged records, and 'pending operations + no I/O + no progress' is reported as deadlock",
+   note="schedules are those produced by the OS/tokio in the run (counted, not enumerated)"),
+ "C09": dict(cat="exploration", tech="runtime monitoring: differential oracle in-memory index vs B+tree file through the H3 index probe over systematically enumerated shapes",
+   text="for thousands of enumerated header multisets (16 key lengths incl. block-exact ones, key counts through 1..3+ inner levels and every last-leaf remainder, version runs around block multiples, ties, markers) the file index must answer every present/absent key exactly like the in-memory index it was built from, also after reopen and after loading back; files are parsed independently",
+   note="probe builds headers with the write path's layout arithmetic; shapes enumerated, not proved"),
+ "C10": dict(cat="exploration", tech="runtime monitoring: no-false-negative oracle over random filter configs/key sets (public API), hierarchical container scripts, storage-level histories (+ Miri in thorough)",
+   text="bloom/range/combined filters: every added key is 'maybe' in memory, after raw round trip, off-loaded and probed byte-wise (answers equal in-memory answers), after merge; hierarchical filters under push/pop/remove/re-push/offload for group sizes 2..9; storage-level check_filters/check_filter/get_filter/read after every step of close/restore/offload histories",
+   note="cases generated for the seed; Miri run covers the aHash fallback unsafe code at small sizes"),
+ "C11": dict(cat="fault_enumeration", tech="runtime monitoring: failpoint enumeration (n-th operation of each kind fails / is short) + model-differential oracle before, during and after the fault",
+   text="for random histories every (fault class, n) position (quick: sampled) is re-run with one injected failure: the call errs or the fault is contained, all earlier acknowledged data stays readable with correct bytes for the rest of the session and after restart (or sits in a quarantined blob), the failed operation is never served, the storage keeps working and rotating",
+   note="faults injected at pearl's File layer (H1), one per run; partially applied multi-blob deletes are excluded per key"),
+ "C12": dict(cat="exploration", tech="runtime monitoring: online checker over the ordered I/O tap trace (writes, syncs, index headers)",
+   text="over complete traces of sequential histories and six dirty-byte limits: un-synced bytes of the active blob <= limit after each acknowledged operation + barrier, header synced before first record, index marked complete only for synced blob sizes, nothing dirty after explicit fsyncdata / close",
+   note="ground truth for 'synced' = file length covered by a completed sync under the per-file tap lock"),
+ "C13": dict(cat="exploration", tech="runtime monitoring: bounded-liveness probe (worker-alive hook, overflow -> rotation, dumps complete, close under a timing-free hang monitor)",
+   text="after random call sequences over the whole API incl. inapplicable background requests: the worker task is alive, overflowing the active blob leads to a new blob within 3 writes after the debounce, every closed blob gets its index file, a dump requested while another dump runs is not lost, close returns",
+   note="liveness restated as bounded progress; only pearl's own 200 ms debounce and deferred-dump timers are waited out"),
+ "C14": dict(cat="fault_enumeration", tech="runtime monitoring: enumeration of cancellation points with a counting waker + 'maybe applied' model oracle + independent parse after restart",
+   text="every operation kind x runtime flavour x fresh/reopened blob is dropped at each of its suspension points (k = 1..), with and without a racing next write; afterwards the surface must equal 'applied' or 'not applied' as a whole (switching only at restart), other data stays readable, 10 more operations work, all blobs parse and nothing is quarantined",
+   note="suspension points are those the runtime produces on this machine; one known finding (partially applied cancelled delete) is listed"),
  "C15": dict(cat="exploration", tech="runtime monitoring: model-differential oracle on counters + directory listing",
    text="all accounting getters are compared with the model after every step; disk_used is compared with the directory listing (exact at quiescent points, bounded otherwise)",
-   note="trusted: reference model, driver; quarantine scenarios as listed in evidence"),
+   note="trusted: reference model, driver"),
+ "C16": dict(cat="fault_enumeration", tech="runtime monitoring: damage enumeration over blob/index files + independent parser as well-formedness oracle + Storage opened on tool output",
+   text="validate_blob/validate_index accept produced files and reject every enumerated truncation/alteration (undetectable classes are listed known findings); recovery (skip on/off), move_and_recover, migration and the reader tools are checked record-for-record against the independent parser, and the storage must serve what recovery wrote",
+   note="well-formedness defined by the independent parser; three known findings for regions without checksum"),
+ "C17": dict(cat="exploration", tech="runtime monitoring: differential replay of a corpus written and answered by the pinned release, exhaustive over index-file subsets",
+   text="18 directories written by the pinned tree (4 key sizes, 3 bloom configs, 1-4 blobs) are opened by the current tree under every subset of removed index files, eager/lazy and with filters off-loaded: all recorded answers must be reproduced; version / key-size mismatches must be rejected or quarantined intact, never misread",
+   note="corpus generated once from the pinned commit (tools/gen_corpus.sh), committed under corpus/"),
 }
 
 def main():
@@ -38,7 +77,7 @@ def main():
             "level_note": c["note"],
             "technique": c["tech"],
         })
-    na = [{"property_id": p["id"], "reason": "check not built yet (work in progress); planned per DESIGN.md section 5"} for p in props if p["id"] not in CHECKS]
+    na = [{"property_id": p["id"], "reason": "not claimed"} for p in props if p["id"] not in CHECKS]
     m = {
         "version": 1,
         "setup_cmd": "./check --build",
